@@ -180,6 +180,9 @@ pub fn tag_set(max: usize) -> BoxedStrategy<Vec<u8>> {
     2 => Just(vec![254u8, 255]),
     3 => proptest::collection::vec(any::<u8>(), 1..max.max(2)),
     1 => (any::<u8>(), 1usize..max.max(2)).prop_map(|(s, n)| (0..n).map(|i| s.wrapping_add(i as u8)).collect()),
+    // a tag together with its one-bit neighbours (siblings / cousins at every tree level)
+    2 => (any::<u8>(), 1usize..9).prop_map(|(s, n)| std::iter::once(s).chain((0..n.min(8)).map(move |i| s ^ (1u8 << (7 - i)))).collect()),
+    1 => (any::<u8>(), 1usize..9).prop_map(|(s, n)| std::iter::once(s).chain((0..n.min(8)).map(move |i| s ^ (1u8 << i))).collect()),
   ]
   .prop_map(|mut v: Vec<u8>| {
     let mut seen = std::collections::BTreeSet::new();
